@@ -102,6 +102,13 @@ End Assoc.
 
 Definition mem_url (u : url) (l : list url) : bool := existsb (url_eqb u) l.
 
+(* IgnoredLints is a HashSet of context hashes: ignore lists are kept sorted and without duplicates *)
+Fixpoint ins (k : nat) (l : list nat) : list nat :=
+  match l with
+  | [] => [k]
+  | x :: l' => if k <? x then k :: l else if k =? x then l else x :: ins k l'
+  end.
+
 (* ---------- DocumentState ---------- *)
 Record entry := mkentry {
   e_lang : option lang;       (* language_id *)
@@ -181,7 +188,7 @@ Definition client_effect (o : op) (w : world) : world :=
         (set_disk (filter (fun kv => negb (matches tg (fst kv))) (w_disk w)) w)
   | Ignore u k =>
       match lookup u (w_open w) with
-      | Some cd => set_open (upsert u (mkcdoc (cd_lang cd) (cd_text cd) (k :: cd_ign cd)) (w_open w)) w
+      | Some cd => set_open (upsert u (mkcdoc (cd_lang cd) (cd_text cd) (ins k (cd_ign cd))) (w_open w)) w
       | None => w
       end
   | CfgChange c _ => set_ccfg c w
@@ -249,7 +256,7 @@ Definition e_set_dict d c e := mkentry (e_lang e) d (e_ident e) c (e_text e) (e_
 Definition e_set_ident i e := mkentry (e_lang e) (e_dict e) i (e_lcfg e) (e_text e) (e_pcfg e) (e_ign e).
 Definition e_set_lcfg c e := mkentry (e_lang e) (e_dict e) (e_ident e) c (e_text e) (e_pcfg e) (e_ign e).
 Definition e_set_doc t c e := mkentry (e_lang e) (e_dict e) (e_ident e) (e_lcfg e) (Some t) c (e_ign e).
-Definition e_add_ign k e := mkentry (e_lang e) (e_dict e) (e_ident e) (e_lcfg e) (e_text e) (e_pcfg e) (k :: e_ign e).
+Definition e_add_ign k e := mkentry (e_lang e) (e_dict e) (e_ident e) (e_lcfg e) (e_text e) (e_pcfg e) (ins k (e_ign e)).
 
 (* what publish_diagnostics(url) sends: generate_diagnostics on the entry, [] when there is none *)
 Definition pubval (w : world) (u : url) : pub :=
